@@ -19,7 +19,9 @@ VERIF = os.path.dirname(os.path.dirname(os.path.abspath(__file__)))
 PATH = os.path.join(VERIF, "known_findings.json")
 
 HOSTISH = {"raw_host", "host", "host_subcomponent", "host_port_subcomponent"}
-_PFX = re.compile(r"^(parent|origin|relative)\.")
+# "parent." etc.: deep observation of a child URL; "derive:<modifier>.": result of the same modifier applied
+# to original and twin (identity-returning modifiers hand back the very object under comparison)
+_PFX = re.compile(r"^(derive:[a-z_]+\.)?((parent|origin|relative)\.)?")
 _WELL_BRACKET = re.compile(r"^\[([^\[\]]*)\](:[0-9]*)?$")
 _IPVFUTURE = re.compile(r"\Av[a-fA-F0-9]+\..+\Z")
 
